@@ -1,4 +1,314 @@
-import StreamzVerif.Model.Graph
+import StreamzVerif.Proofs.RefCount
+/-
+C05 — checkpoint liveness / balance, on the dataflow model `Model/Graph.lean` (reference counting through
+`retainMd` = `_retain_refs`, `releaseMd` = `_release_refs`, `Ev.fire r` = the callback of counter `r` being
+scheduled because a release left `count r ≤ 0`).
+
+Vocabulary (all defined in `Proofs/RefCount.lean`, namespace `StreamzVerif.Graph.RefCount`)
+
+  `wMd r md`            number of entries of the metadata list `md` whose counter is `r`
+  `heldMd k s`          the metadata a node of kind `k` in state `s` is holding: the buffers of `partition`,
+                        `partition_unique`, `collect`, the metadata deque of `sliding_window` (`items`); the
+                        buffers of `zip` (`bufs`); the `metadata` slots of `combine_latest` (`lastMd`); the
+                        lossless buffer of `zip_latest` plus its non-lossless slots (`lossless`, `lastMd.drop 1`);
+                        nothing for every other kind
+  `holders G nodes S r` the ghost function: how often `r` sits in a node of the finite node list `nodes`, plus in
+                        an asynchronous consumer invocation that has not finished (`S.pending`), plus in a
+                        suspended `partition._flush` (`S.waiters`)
+  `Good G nodes S`      a *quiescent state* (between top-level operations): the topology is a DAG and `nodes` is
+                        closed under `downs` (`WF`); every node satisfies its shape invariant `NodeInv` (distinct
+                        keys in `partition_unique`, metadata deque shorter than `n` in `sliding_window`, one buffer
+                        / slot per upstream in `zip`, `combine_latest`, `zip_latest`); pending tokens are distinct
+                        (`PendOK`); and **`∀ r, S.count r = holders G nodes S r`**
+  `Op`, `Step`          the top-level operations `emit n v md` (`Stream._emit` at any node), `flush d`
+                        (`collect.flush()`), `done tok` (an asynchronous consumer finishes normally), each
+                        completing normally (`Run`: no exception, none captured by `partition`'s coroutine, enough
+                        fuel); `step_of_emitAt` / `step_of_flushAt` turn successful runs of the executable
+                        interpreter into steps; `Steps` is a sequence of them
+  `evNet r e`, `logNet r l`   what an event / a log does to the counter of `r`
+                        (`retain r k ↦ +k`, `release r ↦ −1`, everything else 0)
+
+Hypotheses, stated once: a finite duplicate-free node list `nodes`, a DAG closed under `downs`, the node
+invariants, successful runs.  No hypothesis on the kinds occurring in the graph: `every_update_balanced` covers
+all 18 kinds of the model.  Metadata is arbitrary (a reference may occur several times in one metadata list, in
+several elements, and may be re-emitted while it is still held).
+-/
 namespace StreamzVerif.Graph
-theorem placeholder_C05 : True := trivial
+open RefCount
+
+variable (G : NodeId → Kind)
+
+/-- **Per-kind balance** (the obligation `KindOK`, discharged for *every* kind): for every node state `s`
+satisfying the node invariant, every arrival `(who, v, md)` on which `update` returns normally and every
+reference `r`, the body of `update` keeps the books — retains minus releases equals what the node holds
+afterwards minus what it held before (`BodyOK … (nodeHolds k s r)` ends in `c = nodeHolds k s' r`); no release
+takes more than the node's share; at every emission everything still buffered is still counted and the
+emitted metadata is still counted; the final state satisfies the node invariant again. -/
+theorem every_update_balanced (k : Kind) : KindOK k := kindOK_all k
+
+/-- **`count r = holders r + k` is preserved** by `_emit` at any node, from any well-formed state (balanced or
+not), for every reference: what the counter shows beyond the holders does not change. -/
+theorem excess_preserved {nodes : List NodeId} (hn : nodes.Nodup) {n : NodeId} {v : Val} {md : Meta}
+    {S S' : State} {l : List Ev} {t : List Tok} (hW : WF nodes S) (hI : InvFrom G nodes 0 S) (hin : n ∈ nodes)
+    (h : Run G (.emit n v md) S S' l t) (r : Nat) :
+    S'.count r - (holders G nodes S' r : Int) = S.count r - (holders G nodes S r : Int) :=
+  (run_bal' G hn r h hW hin (hI.mono G (Nat.zero_le _))).1
+
+/-- **`count_eq_holders`**: the invariant of quiescent states — in particular `∀ r, count r = holders r` — is
+preserved by every top-level operation: `_emit` of any value with any metadata at any node, `collect.flush()`,
+and the completion of an asynchronous consumer. -/
+theorem count_eq_holders {nodes : List NodeId} (hn : nodes.Nodup) {S S' : State} {op : Op} {l : List Ev}
+    (hG : Good G nodes S) (h : Step G nodes S op S' l) :
+    Good G nodes S' ∧ ∀ r, S'.count r = (holders G nodes S' r : Int) :=
+  ⟨step_good G hn hG h, (step_good G hn hG h).bal⟩
+
+/-- ... hence at *every* quiescent point of any session (any sequence of operations) started in a quiescent
+state — e.g. a freshly built pipeline, `good_init` — every counter equals the number of legitimate holders. -/
+theorem count_eq_holders_always {nodes : List NodeId} (hn : nodes.Nodup) {S S' : State} {ops : List Op}
+    {l : List Ev} (hG : Good G nodes S) (h : Steps G nodes S ops S' l) (r : Nat) :
+    S'.count r = (holders G nodes S' r : Int) :=
+  (steps_good G hn h hG).bal r
+
+/-- The same for the executable interpreter: a successful `emitAt` (any fuel) from a quiescent state ends in a
+quiescent state. -/
+theorem count_eq_holders_emitAt {nodes : List NodeId} (hn : nodes.Nodup) {fuel : Nat} {n : NodeId} {v : Val}
+    {md : Meta} {S : State} (hG : Good G nodes S) (hin : n ∈ nodes)
+    (he : (emitAt G fuel n v md S).err = none) (hc : (emitAt G fuel n v md S).carried = none) (r : Nat) :
+    (emitAt G fuel n v md S).st.count r = (holders G nodes (emitAt G fuel n v md S).st r : Int) :=
+  (step_good G hn hG (step_of_emitAt G hin he hc)).bal r
+
+/-- ... and for `flushAt` on a `collect` node. -/
+theorem count_eq_holders_flushAt {nodes : List NodeId} (hn : nodes.Nodup) {fuel : Nat} {d : NodeId}
+    {S : State} (hG : Good G nodes S) (hin : d ∈ nodes) (hk : G d = .collect)
+    (he : (flushAt G fuel d S).err = none) (hc : (flushAt G fuel d S).carried = none) (r : Nat) :
+    (flushAt G fuel d S).st.count r = (holders G nodes (flushAt G fuel d S).st r : Int) :=
+  (step_good G hn hG (step_of_flushAt G hin hk he hc)).bal r
+
+/-- **The log is the counter's history** (no hypothesis at all): over any completed call of the interpreter
+the counter changes by exactly the logged retains and releases.  This is what makes "the count at the moment
+after the log prefix `p`" (`S.count r + logNet r p`) meaningful in the theorems below. -/
+theorem count_tracks_log {c : Call} {S S' : State} {l : List Ev} {t : List Tok} (h : Run G c S S' l t)
+    (r : Nat) : S'.count r = S.count r + logNet r l :=
+  (run_log G r h).1
+
+/-- **`nonneg`**: during a top-level operation started in a quiescent state no counter ever becomes negative —
+at every moment *inside* the run (after every prefix `p` of the log), not only at the end. -/
+theorem nonneg {nodes : List NodeId} (hn : nodes.Nodup) {S S' : State} {op : Op} {l : List Ev}
+    (hG : Good G nodes S) (h : Step G nodes S op S' l) (r : Nat) (p q : List Ev) (hl : l = p ++ q) :
+    0 ≤ S.count r + logNet r p := by
+  have h0 : 0 ≤ S.count r := by rw [hG.bal r]; omega
+  exact (step_safeTop G hn r hG h).nonneg h0 p q hl
+
+/-- **The callback is scheduled exactly when the count reaches zero.**
+(1) at the moment of every `fire r` the count of `r` is exactly 0 (not negative);
+(2) whenever a `release r` brings the count from 1 to 0 the next event is `fire r`. -/
+theorem fire_iff_zero {nodes : List NodeId} (hn : nodes.Nodup) {S S' : State} {op : Op} {l : List Ev}
+    (hG : Good G nodes S) (h : Step G nodes S op S' l) (r : Nat) :
+    (∀ p q, l = p ++ Ev.fire r :: q → S.count r + logNet r p = 0) ∧
+    (∀ p q, l = p ++ Ev.release r :: q → S.count r + logNet r p = 1 → ∃ q', q = Ev.fire r :: q') := by
+  have h0 : 0 ≤ S.count r := by rw [hG.bal r]; omega
+  have hlog := step_logOK G r hG h
+  refine ⟨fun p q hl => ((step_safeTop G hn r hG h).fire_dead hlog.2 h0 hl).1, fun p q hl h1 => ?_⟩
+  subst hl
+  exact hlog.2.release_fires (by omega)
+
+/-- **`count_no_resurrection`** (the clause `no_resurrection` of C05; the plain name is taken by a C15 theorem in
+the same namespace): once the count of `r` has reached zero inside an operation (`fire r`), the rest of the
+operation neither retains nor releases `r` (every later event is neutral for `r`: no `release r`, no
+`retain r k` with `k > 0`), so the count stays 0 at every later moment and at the end of the operation.  No
+freshness assumption: the start state is any quiescent state. -/
+theorem count_no_resurrection {nodes : List NodeId} (hn : nodes.Nodup) {S S' : State} {op : Op} {l : List Ev}
+    (hG : Good G nodes S) (h : Step G nodes S op S' l) (r : Nat) (p q : List Ev)
+    (hl : l = p ++ Ev.fire r :: q) :
+    (∀ e ∈ q, evNet r e = 0) ∧ (∀ q1 q2, q = q1 ++ q2 → S.count r + logNet r (p ++ Ev.fire r :: q1) = 0) ∧
+      S'.count r = 0 := by
+  have h0 : 0 ≤ S.count r := by rw [hG.bal r]; omega
+  have hlog := step_logOK G r hG h
+  obtain ⟨hz, hd⟩ := (step_safeTop G hn r hG h).fire_dead hlog.2 h0 hl
+  have hnet : ∀ q1 : List Ev, (∀ e ∈ q1, evNet r e = 0) → logNet r q1 = 0 := by
+    intro q1 hq1
+    have a := logNet_nonneg (r := r) (l := q1) (fun e he => by rw [hq1 e he]; omega)
+    have b := logNet_nonpos (r := r) (l := q1) (fun e he => by rw [hq1 e he]; omega)
+    omega
+  refine ⟨hd, ?_, ?_⟩
+  · intro q1 q2 hq
+    have := hnet q1 (fun e he => hd e (by rw [hq]; simp [he]))
+    simp only [logNet_append, logNet_cons, evNet_fire]
+    omega
+  · have := hnet q hd
+    rw [hlog.1, hl]
+    simp only [logNet_append, logNet_cons, evNet_fire]
+    omega
+
+/-- ... and across operations: a reference whose count is 0 at a quiescent point (completed, or never seen) is
+never touched by any later operation that does not inject it again — no retain, no release, no second callback,
+count still 0, nobody holds it. -/
+theorem completed_stays_completed {nodes : List NodeId} (hn : nodes.Nodup) {S S' : State} {ops : List Op}
+    {l : List Ev} (hG : Good G nodes S) (h : Steps G nodes S ops S' l) (r : Nat) (h0 : S.count r = 0)
+    (hops : ∀ op ∈ ops, ∀ n v md, op = Op.emit n v md → wMd r md = 0) :
+    (∀ e ∈ l, evNet r e = 0) ∧ Ev.fire r ∉ l ∧ S'.count r = 0 ∧ holders G nodes S' r = 0 := by
+  obtain ⟨a, b, c⟩ := steps_dead G hn r h hG h0 hops
+  have := (steps_good G hn h hG).bal r
+  exact ⟨a, b, c, by omega⟩
+
+/-- **Reaching zero is signalled**: if at some moment of an operation the count of `r` is positive and at the
+end of the operation it is 0, then `fire r` was logged after that moment. -/
+theorem fired_when_zero {nodes : List NodeId} {S S' : State} {op : Op} {l : List Ev}
+    (hG : Good G nodes S) (h : Step G nodes S op S' l) (r : Nat) (p q : List Ev) (hl : l = p ++ q)
+    (hpos : 0 < S.count r + logNet r p) (hend : S'.count r = 0) : Ev.fire r ∈ q :=
+  (step_logOK G r hG h).fired hl hpos (by omega)
+
+/-- **`dropped_is_zero`**: after a top-level `_emit`, a reference that no node, no pending consumer and no
+suspended flush holds — because the element was dropped by a `filter`, `unique`, `slice` (which never hold
+anything, `nonholding_kinds`), was the duplicate dropped or the entry replaced by `partition_unique`, or simply
+went all the way through — has count 0; and if it was new (`S.count r = 0`) and the entry node has a
+downstream, its completion callback has been scheduled during this very operation. -/
+theorem dropped_is_zero {nodes : List NodeId} (hn : nodes.Nodup) {n : NodeId} {v : Val} {md : Meta}
+    {S S' : State} {l : List Ev} (hG : Good G nodes S) (h : Step G nodes S (.emit n v md) S' l) (r : Nat)
+    (hfree : holders G nodes S' r = 0) :
+    S'.count r = 0 ∧ (S.count r = 0 → 0 < wMd r md → S.downs n ≠ [] → Ev.fire r ∈ l) := by
+  have hz : S'.count r = 0 := by rw [(step_good G hn hG h).bal r, hfree]; rfl
+  refine ⟨hz, fun h0 hw hd => ?_⟩
+  cases h with
+  | emit hin hr =>
+    obtain ⟨l', hl, hcount⟩ := emit_log_head G hr r
+    have hlen : 0 < (S.downs n).length := List.length_pos_iff.2 hd
+    have hpos : 0 < (S.downs n).length * wMd r md := Nat.mul_pos hlen hw
+    have := fired_when_zero G hG (Step.emit hin hr) r _ l' hl (by rw [hcount, h0]; omega) hz
+    rw [hl]
+    exact List.mem_append_right _ this
+
+/-- the kinds that never hold a reference past `update()`: whatever they drop is not held by them -/
+theorem nonholding_kinds (k : Kind)
+    (hk : match k with
+      | .partition _ _ | .partitionUnique _ _ _ | .slidingWindow _ _ | .collect | .zip _ | .combineLatest _
+      | .zipLatest => False
+      | _ => True) (s : NState) (r : Nat) : nodeHolds k s r = 0 := by
+  cases k <;> first | exact hk.elim | rfl
+
+/-- **Stateless pipelines complete synchronously**: if every node is of a non-holding kind (`source`, `map`,
+`filter`, `unique`, `slice`, `flatten`, `pluck`, `accumulate`, `union`, synchronous `sink`, …) and no
+asynchronous consumer is running, then after every top-level `_emit` every counter is back to 0, and a new
+reference entering at a node with a downstream has had its callback scheduled — whether the element was passed
+on, transformed, or dropped on the way. -/
+theorem stateless_completes {nodes : List NodeId} (hn : nodes.Nodup) {n : NodeId} {v : Val} {md : Meta}
+    {S S' : State} {l : List Ev} (hG : Good G nodes S) (h : Step G nodes S (.emit n v md) S' l)
+    (hk : ∀ i ∈ nodes, ∀ s, heldMd (G i) s = []) (hp : S'.pending = []) (hw : S'.waiters = []) (r : Nat) :
+    S'.count r = 0 ∧ (S.count r = 0 → 0 < wMd r md → S.downs n ≠ [] → Ev.fire r ∈ l) :=
+  dropped_is_zero G hn hG h r (holders_eq_zero G r (fun i hi => hk i hi _) hp hw)
+
+/-! ### Non-vacuity: concrete pipelines, evaluated with the executable interpreter -/
+
+section Examples
+
+/-- the callbacks scheduled by a log, in order -/
+def firedRefs (l : List Ev) : List Nat := l.filterMap fun | .fire r => some r | _ => none
+
+/-- source 0 → partition(2) 1 → sink 2 -/
+def rcG : NodeId → Kind
+  | 0 => .source
+  | 1 => .partition 2 none
+  | _ => .sink (.sync .id)
+def rcS : State := { loc := fun _ => {}, downs := fun i => match i with | 0 => [1] | 1 => [2] | _ => [] }
+def rcNodes : List NodeId := [0, 1, 2]
+
+/-- the fresh pipeline is a quiescent state: the hypotheses of all theorems above are satisfiable -/
+theorem rcS_good : Good rcG rcNodes rcS := by
+  refine good_init rcG ⟨?_, ?_⟩ ?_ ?_ rfl rfl (fun _ => rfl)
+  · intro u d hd
+    unfold rcS at hd; simp only [] at hd
+    split at hd <;> simp at hd <;> subst hd <;> decide
+  · intro u hu d hd
+    unfold rcS at hd; simp only [] at hd
+    split at hd <;> simp at hd <;> simp [rcNodes, hd]
+  · intro i hi _
+    simp only [rcNodes, List.mem_cons, List.not_mem_nil, or_false] at hi
+    rcases hi with rfl | rfl | rfl <;> simp [rcG]
+  · intro i hi
+    simp only [rcNodes, List.mem_cons, List.not_mem_nil, or_false] at hi
+    rcases hi with rfl | rfl | rfl <;> rfl
+
+def rcR1 := emitAt rcG 10 0 (.int 1) [⟨0, some 7⟩] rcS
+def rcR2 := emitAt rcG 10 0 (.int 2) [⟨1, some 8⟩] rcR1.st
+
+/-- a `partition(2)` holding one element: its counter is 1 (one legitimate holder), nothing fired -/
+example : rcR1.err = none ∧ rcR1.carried = none ∧ rcR1.st.count 7 = 1 ∧ holders rcG rcNodes rcR1.st 7 = 1 ∧
+    firedRefs rcR1.log = [] := by decide +kernel
+/-- after the second element arrives the tuple is emitted: both counters are 0 and both callbacks scheduled -/
+example : rcR2.err = none ∧ rcR2.carried = none ∧ rcR2.st.count 7 = 0 ∧ rcR2.st.count 8 = 0 ∧
+    holders rcG rcNodes rcR2.st 7 = 0 ∧ firedRefs rcR2.log = [7, 8] := by decide +kernel
+/-- the general theorem applies to these runs -/
+example : ∀ r, rcR1.st.count r = (holders rcG rcNodes rcR1.st r : Int) :=
+  count_eq_holders_emitAt rcG (by decide) rcS_good (by decide) (by decide +kernel) (by decide +kernel)
+
+/-- source 0 → filter(isEven) 1 → sink 2: the odd element is dropped, its counter is 0 and its callback scheduled -/
+def rcGf : NodeId → Kind
+  | 0 => .source
+  | 1 => .filter .isEven
+  | _ => .sink (.sync .id)
+example : (emitAt rcGf 10 0 (.int 3) [⟨0, some 7⟩] rcS).err = none ∧
+    (emitAt rcGf 10 0 (.int 3) [⟨0, some 7⟩] rcS).st.count 7 = 0 ∧
+    firedRefs (emitAt rcGf 10 0 (.int 3) [⟨0, some 7⟩] rcS).log = [7] ∧
+    arrivalsAt 2 (emitAt rcGf 10 0 (.int 3) [⟨0, some 7⟩] rcS).log = [] := by decide +kernel
+
+/-- source 0 → partition_unique(2, key = x mod 10, keep = "last") 1 → sink 2: 11 replaces 1 — the replaced
+element's counter drops to 0 and fires, the replacing one is held (count 1) -/
+def rcGu : NodeId → Kind
+  | 0 => .source
+  | 1 => .partitionUnique 2 (.modk 10) true
+  | _ => .sink (.sync .id)
+def rcU1 := emitAt rcGu 10 0 (.int 1) [⟨0, some 7⟩] rcS
+def rcU2 := emitAt rcGu 10 0 (.int 11) [⟨1, some 8⟩] rcU1.st
+example : rcU1.st.count 7 = 1 ∧ rcU2.err = none ∧ rcU2.st.count 7 = 0 ∧ rcU2.st.count 8 = 1 ∧
+    firedRefs rcU2.log = [7] ∧ holders rcGu rcNodes rcU2.st 8 = 1 := by decide +kernel
+
+/-- sources 0, 1 → zip 2 → sliding_window(2) 3 → collect 4 → sink 5 -/
+def rcGz : NodeId → Kind
+  | 0 => .source
+  | 1 => .source
+  | 2 => .zip []
+  | 3 => .slidingWindow 2 false
+  | 4 => .collect
+  | _ => .sink (.sync .id)
+def rcSz : State :=
+  { loc := fun i => match i with | 2 => { ups := [0, 1], bufs := [(0, []), (1, [])] } | _ => {},
+    downs := fun i => match i with | 0 => [2] | 1 => [2] | 2 => [3] | 3 => [4] | 4 => [5] | _ => [] }
+def rcNz : List NodeId := [0, 1, 2, 3, 4, 5]
+
+theorem rcSz_good : Good rcGz rcNz rcSz := by
+  refine good_init rcGz ⟨?_, ?_⟩ ?_ ?_ rfl rfl (fun _ => rfl)
+  · intro u d hd
+    unfold rcSz at hd; simp only [] at hd
+    split at hd <;> simp at hd <;> subst hd <;> decide
+  · intro u hu d hd
+    unfold rcSz at hd; simp only [] at hd
+    split at hd <;> simp at hd <;> simp [rcNz, hd]
+  · intro i hi _
+    simp only [rcNz, List.mem_cons, List.not_mem_nil, or_false] at hi
+    rcases hi with rfl | rfl | rfl | rfl | rfl | rfl <;> simp [rcGz, rcSz, NodeInv]
+  · intro i hi
+    simp only [rcNz, List.mem_cons, List.not_mem_nil, or_false] at hi
+    rcases hi with rfl | rfl | rfl | rfl | rfl | rfl <;> rfl
+
+def rcZ1 := emitAt rcGz 20 0 (.int 1) [⟨0, some 7⟩] rcSz
+def rcZ2 := emitAt rcGz 20 1 (.int 2) [⟨0, some 8⟩] rcZ1.st
+def rcZ3 := emitAt rcGz 20 0 (.int 3) [⟨0, some 9⟩] rcZ2.st
+def rcZ4 := emitAt rcGz 20 1 (.int 4) [⟨0, some 10⟩] rcZ3.st
+def rcZ5 := flushAt rcGz 20 4 rcZ4.st
+
+/-- four emissions and a `collect.flush()`: at every quiescent point the counter of each of the four references
+equals its number of holders (zip buffer; sliding window and collect cache at the same time; after the flush the
+window only), and the flush completes exactly the two references that left the window -/
+example : rcZ4.err = none ∧ rcZ4.carried = none ∧ rcZ5.err = none ∧ rcZ5.carried = none := by decide +kernel
+example : [7, 8, 9, 10].map (fun r => (rcZ1.st.count r, holders rcGz rcNz rcZ1.st r)) = [(1,1),(0,0),(0,0),(0,0)] := by
+  decide +kernel
+example : [7, 8, 9, 10].map (fun r => (rcZ2.st.count r, holders rcGz rcNz rcZ2.st r)) = [(1,1),(1,1),(0,0),(0,0)] := by
+  decide +kernel
+example : [7, 8, 9, 10].map (fun r => (rcZ4.st.count r, holders rcGz rcNz rcZ4.st r)) = [(1,1),(1,1),(2,2),(2,2)] := by
+  decide +kernel
+example : [7, 8, 9, 10].map (fun r => (rcZ5.st.count r, holders rcGz rcNz rcZ5.st r)) = [(0,0),(0,0),(1,1),(1,1)] ∧
+    firedRefs rcZ5.log = [7, 8] := by decide +kernel
+
+end Examples
+
 end StreamzVerif.Graph
